@@ -229,7 +229,7 @@ def _fit_case(args):
     unit = 1.0
     if cls_name in ('LinearGAM', 'ExpectileGAM'):
         # identity link: the response may be measured in any unit (energies in joule ~ 1e-19, counts of 1e6)
-        unit = [1.0, 1.0, 1.602e-19, 1e6, 1e-9][seed % 5]
+        unit = [1.0, 1.0, 1.602e-19, 1e6, 1e-9][(seed // 5) % 5]      # cycles with the case index whatever the run seed: every class meets every unit
         y = eta * unit
     elif cls_name == 'PoissonGAM':
         y = rng.poisson(np.exp(0.5 * eta - np.min(0.5 * eta) * 0 - 1)).astype(float)
